@@ -160,6 +160,35 @@ theorem midx_get_raw_transparent {Oid Pack Obj : Type} (midx : Oid → Option Pa
     | none => simp [getRawVia, hm, hp]
     | some x => simp [getRawVia, hm, hp, h p o x hp]
 
+/-- the answer of `get_raw` does not depend on the OFFSET field of the multi-pack-index, only on which pack an
+entry names: two indexes that name the same packs give the same answers, whatever offsets they hold (a pack
+re-created under the same name with another layout, a MIDX from a sibling repository, …) -/
+theorem midx_offset_irrelevant {Oid Pack Obj : Type} (m1 m2 : Oid → Option (Pack × Nat))
+    (packGet : Pack → Oid → Option Obj) (base : Oid → Option Obj)
+    (h : ∀ o, (m1 o).map (·.1) = (m2 o).map (·.1)) :
+    getRawViaEntry m1 packGet base = getRawViaEntry m2 packGet base := by
+  unfold getRawViaEntry
+  have : (fun o => (m1 o).map (·.1)) = (fun o => (m2 o).map (·.1)) := funext h
+  rw [this]
+
+/-- … hence transparent for ANY offsets as soon as packs are honest -/
+theorem midx_get_raw_transparent_any_offset {Oid Pack Obj : Type} (midx : Oid → Option (Pack × Nat))
+    (packGet : Pack → Oid → Option Obj) (base : Oid → Option Obj)
+    (h : ∀ p o x, packGet p o = some x → base o = some x) :
+    getRawViaEntry midx packGet base = base :=
+  midx_get_raw_transparent _ packGet base h
+
+/-- NEGATION WITNESS for the variant that would trust the offset: pack 0 holds object 7 at offset 12 and object 8
+at offset 40; the index still says "7 is at offset 40" (same pack name, other layout): reading at the stored
+offset returns object 8's content for id 7, the re-lookup returns 7's -/
+theorem midx_offset_trusted_counterexample :
+    let midx : Nat → Option (Nat × Nat) := fun o => if o = 7 then some (0, 40) else none
+    let readAt : Nat → Nat → Option Nat := fun _ off => if off = 12 then some 700 else if off = 40 then some 800 else none
+    let packGet : Nat → Nat → Option Nat := fun _ o => if o = 7 then some 700 else if o = 8 then some 800 else none
+    getRawAtOffset midx readAt (packGet 0) 7 = some 800 ∧
+    getRawViaEntry midx packGet (packGet 0) 7 = some 700 := by
+  decide
+
 /-- `contains_packed` (FULL, since it checks the named pack like `get_raw` does): transparent as soon as packs are
 honest — a stale or foreign MIDX entry whose pack is gone, or no longer has the object, falls back. -/
 theorem midx_contains_transparent {Oid Pack : Type} (midx : Oid → Option Pack) (packHas : Pack → Oid → Bool)
